@@ -17,6 +17,9 @@ pub struct Violation {
     pub key: String,
     /// human readable detail (instance data)
     pub detail: String,
+    /// a second property that this violation also breaks (e.g. a failed request that unregisters
+    /// a live item's id breaks both C14 and C03)
+    pub also: Option<&'static str>,
 }
 
 impl Violation {
@@ -26,7 +29,11 @@ impl Violation {
             class,
             key: key.into(),
             detail: detail.into(),
+            also: None,
         }
+    }
+    pub fn owned_by(&self, owners: &[&str]) -> bool {
+        owners.contains(&self.owner) || self.also.map(|a| owners.contains(&a)).unwrap_or(false)
     }
     pub fn signature(&self) -> String {
         format!("{}|{}|{}", self.owner, self.class, self.key)
@@ -337,6 +344,9 @@ impl<'a> Checker<'a> {
                         }
                         Selector::MultiSelector(v) | Selector::CompositeSelector(v) | Selector::DirectionalSelector(v) => {
                             for s in v.iter() {
+                                if s.is_complex() {
+                                    problems.push(("target.nested_complex".into(), format!("annotation {} holds a complex selector nested in a complex selector", h)));
+                                }
                                 stack.push(s);
                             }
                         }
@@ -1689,4 +1699,169 @@ pub fn probe_answers(store: &AnnotationStore, m: &Model) -> Vec<(String, String)
         }
     }
     out
+}
+
+// ------------------------------------------------------------------ C10: data search equals a scan
+
+fn data_operators() -> Vec<DataOperator<'static>> {
+    use std::borrow::Cow;
+    let dt = |s: &str| DateTime::parse_from_rfc3339(s).expect("valid datetime");
+    vec![
+        DataOperator::Any,
+        DataOperator::Null,
+        DataOperator::True,
+        DataOperator::False,
+        DataOperator::Equals(Cow::Borrowed("5")),
+        DataOperator::Equals(Cow::Borrowed("true")),
+        DataOperator::Equals(Cow::Borrowed("yes")),
+        DataOperator::Equals(Cow::Borrowed("x")),
+        DataOperator::Equals(Cow::Borrowed("")),
+        DataOperator::Equals(Cow::Borrowed("noun")),
+        DataOperator::Equals(Cow::Borrowed("5.0")),
+        DataOperator::Equals(Cow::Borrowed("0.5")),
+        DataOperator::Equals(Cow::Borrowed("2022-01-01T12:00:00+00:00")),
+        DataOperator::EqualsInt(5),
+        DataOperator::EqualsInt(0),
+        DataOperator::EqualsFloat(5.0),
+        DataOperator::EqualsFloat(0.5),
+        DataOperator::GreaterThan(4),
+        DataOperator::GreaterThanOrEqual(5),
+        DataOperator::LessThan(5),
+        DataOperator::LessThanOrEqual(5),
+        DataOperator::GreaterThanFloat(0.4),
+        DataOperator::LessThanOrEqualFloat(5.0),
+        DataOperator::ExactDatetime(dt("2022-01-01T12:00:00+00:00")),
+        DataOperator::AfterDatetime(dt("2000-01-01T00:00:00+00:00")),
+        DataOperator::AtOrBeforeDatetime(dt("2022-01-01T13:00:00+01:00")),
+        DataOperator::HasElement(Cow::Borrowed("true")),
+        DataOperator::HasElementInt(5),
+        DataOperator::HasElementFloat(0.5),
+        DataOperator::Not(Box::new(DataOperator::Equals(Cow::Borrowed("5")))),
+        DataOperator::Not(Box::new(DataOperator::Null)),
+        DataOperator::Or(vec![DataOperator::EqualsInt(5), DataOperator::Equals(Cow::Borrowed("x"))]),
+        DataOperator::Or(vec![DataOperator::Equals(Cow::Borrowed("5")), DataOperator::True]),
+        DataOperator::And(vec![DataOperator::GreaterThan(0), DataOperator::LessThan(10)]),
+    ]
+}
+
+impl<'a> Checker<'a> {
+    /// find_data / test_data / data_by_value on store, dataset and key return exactly what a full
+    /// scan of the model's live data selects with the library's own DataValue::test
+    pub fn check_data_search(&mut self, sample_seed: u64) {
+        let store = self.store;
+        let m = self.model;
+        let mut rng = crate::rng::Rng::new(sample_seed);
+        let ops = data_operators();
+        for set in m.datasets.iter().filter(|s| s.live) {
+            if self.full() {
+                return;
+            }
+            let Some(ds) = store.dataset(sh(set.handle)) else { continue };
+            // operators derived from the values present (exact string forms)
+            let mut ops_here: Vec<DataOperator<'static>> = Vec::new();
+            for d in set.data.iter().filter(|d| d.live).take(6) {
+                let s = d.value.to_datavalue().to_string();
+                ops_here.push(DataOperator::Equals(std::borrow::Cow::Owned(s)));
+            }
+            // a sample of the fixed operators per step keeps the cost bounded
+            for op in ops.iter() {
+                if rng.chance(1, 3) {
+                    ops_here.push(op.clone());
+                }
+            }
+            let keys: Vec<Option<(usize, &MKey)>> = std::iter::once(None).chain(set.keys.iter().enumerate().filter(|(_, k)| k.live).map(Some)).collect();
+            for key in keys {
+                if self.full() {
+                    return;
+                }
+                for op in ops_here.iter() {
+                    let ctx = format!("set {} key {:?} op {:?}", set.id, key.map(|(_, k)| k.id.as_str()), op);
+                    // scan of the model with the library's own predicate
+                    let expected: Vec<usize> = set
+                        .data
+                        .iter()
+                        .filter(|d| d.live && key.map(|(ki, _)| d.key == ki).unwrap_or(true) && d.value.to_datavalue().test(op))
+                        .map(|d| d.handle)
+                        .collect();
+                    let sethandle = sh(set.handle);
+                    let got_store = match key {
+                        Some((_, k)) => {
+                            let khandle = kh(k.handle);
+                            let op2 = op.clone();
+                            self.guarded("C10", "store.find_data", &ctx, move || store.find_data(sethandle, khandle, op2).map(|d| d.handle().as_usize()).collect::<Vec<_>>())
+                        }
+                        None => {
+                            let op2 = op.clone();
+                            self.guarded("C10", "store.find_data", &ctx, move || store.find_data(sethandle, false, op2).map(|d| d.handle().as_usize()).collect::<Vec<_>>())
+                        }
+                    };
+                    if let Some(got) = got_store {
+                        self.cmp_multiset("C10", "store.find_data", &ctx, &expected, &got);
+                    }
+                    let ds2 = ds.clone();
+                    let got_ds = match key {
+                        Some((_, k)) => {
+                            let khandle = kh(k.handle);
+                            let op2 = op.clone();
+                            self.guarded("C10", "dataset.find_data", &ctx, move || ds2.find_data(khandle, op2).map(|d| d.handle().as_usize()).collect::<Vec<_>>())
+                        }
+                        None => {
+                            let op2 = op.clone();
+                            self.guarded("C10", "dataset.find_data", &ctx, move || ds2.find_data(false, op2).map(|d| d.handle().as_usize()).collect::<Vec<_>>())
+                        }
+                    };
+                    if let Some(got) = got_ds {
+                        self.cmp_multiset("C10", "dataset.find_data", &ctx, &expected, &got);
+                    }
+                    // test_data agrees with "the search finds something"
+                    let got_test = match key {
+                        Some((_, k)) => {
+                            let khandle = kh(k.handle);
+                            let op2 = op.clone();
+                            self.guarded("C10", "store.test_data", &ctx, move || store.test_data(sethandle, khandle, op2))
+                        }
+                        None => {
+                            let op2 = op.clone();
+                            self.guarded("C10", "store.test_data", &ctx, move || store.test_data(sethandle, false, op2))
+                        }
+                    };
+                    if let Some(got) = got_test {
+                        if got != !expected.is_empty() {
+                            self.push("C10", "mismatch", "store.test_data", format!("{}: expected {} got {}", ctx, !expected.is_empty(), got));
+                        }
+                    }
+                    // via the key itself
+                    if let Some((_, k)) = key {
+                        if let Some(keyitem) = ds.key(kh(k.handle)) {
+                            let op2 = op.clone();
+                            if let Some(got) = self.guarded("C10", "key.data.filter_value", &ctx, move || {
+                                if let DataOperator::Any = op2 {
+                                    keyitem.data().map(|d| d.handle().as_usize()).collect::<Vec<_>>()
+                                } else {
+                                    keyitem.data().filter_value(op2).map(|d| d.handle().as_usize()).collect::<Vec<_>>()
+                                }
+                            }) {
+                                self.cmp_multiset("C10", "key.data.filter_value", &ctx, &expected, &got);
+                            }
+                        }
+                    }
+                }
+                // exact value lookup
+                if let Some((ki, k)) = key {
+                    for d in set.data.iter().filter(|d| d.live && d.key == ki).take(4) {
+                        let v = d.value.to_datavalue();
+                        let ctx = format!("set {} key {} value {:?}", set.id, k.id, d.value);
+                        let khandle = kh(k.handle);
+                        if let Some(got) = self.guarded("C10", "dataset.data_by_value", &ctx, || ds.as_ref().data_by_value(khandle, &v).and_then(|x| x.handle()).map(|h| h.as_usize())) {
+                            let candidates: Vec<usize> = set.data.iter().filter(|x| x.live && x.key == ki && x.value.to_datavalue() == v).map(|x| x.handle).collect();
+                            match got {
+                                Some(h) if candidates.contains(&h) => {}
+                                other => self.push("C10", "mismatch", "dataset.data_by_value", format!("{}: expected one of {:?} got {:?}", ctx, candidates, other)),
+                            }
+                        }
+                    }
+                }
+            }
+        }
+    }
 }
